@@ -39,7 +39,7 @@ def run(names, checks_override, repo):
             continue
         meta = json.load(open(d + '/meta.json'))
         checks = checks_override or meta.get('checks') or [meta['property']]
-        r = sh(f'git -C {repo} apply {d}/patch.diff')
+        r = sh(f'git -C {repo} apply {d}/patch.diff || (git -C {repo} apply --3way {d}/patch.diff && git -C {repo} reset -q)')
         if r.returncode != 0:
             results[n] = {'error': 'patch does not apply: ' + r.stderr[:200]}
             print(n, results[n]); continue
